@@ -13,7 +13,7 @@ from dslref import parse, Interp
 
 def main(seed, ncases, driver, out):
     rnd = random.Random(seed); failures = []; dist = {}; samples = []; evals = 0; distinct = 0
-    names = ["prog_basic", "prog_nested", "prog_flags", "prog_lower", "prog_herm3", "prog_primes"]
+    names = ["prog_basic", "prog_nested", "prog_flags", "prog_lower", "prog_herm3", "prog_primes", "prog_unitary"]
     for c in range(ncases):
         if skip(c): continue
         rnd = case_rnd(seed, c)
@@ -61,13 +61,19 @@ def main(seed, ncases, driver, out):
             return lambda a, idx: gval(I.get(a[1], idx) if isinstance(a, tuple) else a, idx, c1, c2)
         rscope = {"f": rf(2, 1), "g": rf(1, -1), "flag_a": flag_a, "flags_b": flags_b, "diag": lambda v, idx: v}
         if use_offdiag: rscope["offdiag"] = lambda v, idx: None if v is None else v * 0.5
-        I = Interp(prog, {"H": lambda idx: data.get(tuple(idx))}, rscope, N, 1, sizes)
+        # the element product is a parameter of the compiler (`operator=`): every product of every declared Cauchy product, of any number of factors, goes through it
+        twist = rnd.random() < 0.4 and pname != "prog_unitary"      # (the identity sentinel of a factor is not passed through the operator: no twist there)
+        opmul = (lambda a, b: 2 * (a @ b)) if twist else None
+        desc["operator"] = "2 * (a @ b)" if twist else "default"
+        I = Interp(prog, {"H": lambda idx: data.get(tuple(idx))}, rscope, N, 1, sizes, **({"mul": opmul} if twist else {}))
         try:
-            outs, _ = series_computation({"H": H}, algorithm=fn, scope=scope)
+            outs, _ = series_computation({"H": H}, algorithm=fn, scope=scope, **({"operator": opmul} if twist else {}))
         except Exception as e:
             failures.append(dict(desc, kind="compiler-raises", error=type(e).__name__ + ": " + str(e)[:120])); continue
         reqs = [(nm, i, j, n) for nm in prog.outputs for i in range(N) for j in range(N) for n in range(0, 4)]
         rnd.shuffle(reqs); bad = None
+        reqs = reqs + reqs            # everything is read a second time: a value handed out (or an input array) must not change under later evaluations
+        inputs_before = {k_: v.tobytes() for k_, v in data.items()}
         for (nm, i, j, n) in reqs:
             evals += 1
             try:
@@ -79,6 +85,7 @@ def main(seed, ncases, driver, out):
             za = np.zeros((sizes[i], sizes[j])) if a is zero else np.asarray(a); zb = np.zeros((sizes[i], sizes[j])) if b is None else b
             if (a is zero) != (b is None) and np.abs(za - zb).max() > 1e-9 or np.abs(za - zb).max() > 1e-9:
                 bad = {"kind": "differs-from-direct-interpretation", "request": [nm, i, j, n], "err": float(np.abs(za - zb).max())}; break
+        if bad is None and {k_: v.tobytes() for k_, v in data.items()} != inputs_before: bad = {"kind": "input-arrays-mutated"}
         distinct += 1
         if bad: failures.append(dict(desc, **bad))
     json.dump({"evaluations": evals, "cases": ncases, "distinct_nontrivial": distinct, "failures": failures, "distribution": dist, "samples": samples}, open(out, "w"))
